@@ -309,6 +309,11 @@ def style_job(job):
     sets = dict(zip(["A", "B", "C", "D"], attr_sets(rng, 4)))
     # where the two cells live: in one table, or the second one in a table added to the sheet / on an added sheet
     layout = idx % 3
+    if twin == "bg_color/split":
+        layout = 0
+    elif twin and twin not in ("preset-over", "textonly-over"):
+        # near twins matter most where both cells live in ONE table (style records are de-duplicated per table): two of three cases
+        layout = [0, 0, 1, 0, 0, 2][idx % 6]
     where = {"c1": (0, 0), "c2": [(0, 0), (0, 1), (1, 0)][layout]}
 
     def new_doc():
@@ -667,8 +672,8 @@ def run(ctx):
                 attr[name] = o["a"]
             elif o["op"] == "apply":
                 on[o["c"]] = o["nm"]
-            elif o["op"] == "save" and len(on) == 2 and len({attr.get(n, n) for n in on.values()}) == 2:
-                return True
+            elif o["op"] == "save" and len(on) == 2 and all(n in attr for n in on.values()) and len({attr[n] for n in on.values()}) == 2:
+                return True          # (both are styles the history added - a preset on one of the cells would leave the twin unused)
         return False
     sjobs = [(i, [dict(o) for o in h], ctx.seed * 7 + i, ctx.scratch, None) for i, h in enumerate(sh)]
     twins = [h for h in all_sh if both_live(h)]
